@@ -78,7 +78,7 @@ CHECKS = {
             "DESIGN.md 3/C18"),
     "C03": (True, "schedx", "model_checking",
             "stateless model checking of the real code under a controlled scheduler: all thread schedules up to a preemption bound (iterative context bounding) with a shared-object reduction",
-            "Every schedule with at most k preemptions of 2-3 real threads (writer/readers, writer/writer, page reuse under a reader, Database drop racing a live transaction, savepoint drop racing a commit) is executed; single-writer, serial order, no lost update, snapshot windows, monotonic views, no deadlock, accounting and the backend contract are judged on every one.",
+            "Every schedule with at most k preemptions of 2-3 real threads (writer/readers, writer/writer, page reuse and non-durable churn under a reader that is parked at a gate, Database drop racing a live transaction, savepoint drop racing a commit) is executed; single-writer, serial order, no lost update, snapshot windows, monotonic views, no deadlock, accounting and the backend contract are judged on every one.",
             "sequentially consistent scheduling at synchronisation operations only; bounded threads and preemptions; reduction to objects shared by >= 2 threads (cross-checked against the unreduced search in the thorough tier)",
             "DESIGN.md 3/C03"),
     "C12": (True, "corruptx", "fault_enumeration",
@@ -109,7 +109,7 @@ CHECKS = {
     "C20": (True, "contractx", "model_checking",
             "contract monitor on the storage backend over exhaustively enumerated failing opens, fault indices, read-only opens, deferred closes and operation sequences",
             "The monitor (bounds, close exactly once, nothing after close, read-only is read-only) is evaluated on every enumerated failing open, every I/O-error index of open, read-only opens, Database drops with live transactions, and every depth-2 operation sequence; it is also active inside every other check.",
-            "truncated files are outside the quantifier; in-memory backend",
+            "in-memory backend; three known findings (reads beyond the length on bad geometry / truncated files, see known_findings.json)",
             "DESIGN.md 3/C20"),
 }
 
